@@ -27,6 +27,9 @@ EXC = {
     "SystemExit": SystemExit, "Private": _Private,
 }
 EXC_NAMES = list(EXC)
+# the types a sloppy `except` clause inside a library is most likely to name get more of the crash points
+EXC_WEIGHTED = (EXC_NAMES + ["KeyError", "KeyError", "IndexError", "IndexError", "StopIteration", "ValueError", "TypeError",
+                             "AttributeError"])
 
 
 def make_exc(name: str, msg: str, salt: int = 0) -> BaseException:
@@ -286,7 +289,7 @@ def _gen_plugins(rng):
 
 def _gen_fault(rng):
     return {"site_pick": rng.random(), "idx_pick": rng.random() ** rng.choice([1, 1, 2]),
-            "exc": rng.choice(EXC_NAMES), "kind_pick": rng.random()}
+            "exc": rng.choice(EXC_WEIGHTED), "kind_pick": rng.random()}
 
 
 def _gen_body(rng, depth=0):
@@ -349,7 +352,7 @@ def gen(rng: random.Random, tier: str) -> dict:
         if "Inline" not in rec["method"] and rng.random() < 0.5:
             rec["doc"] += "\n" + "\n".join(rng.sample(RICH, rng.randint(1, 3)))
         rec["cap"] = 100 if tier == "quick" else 400
-        rec["exc_rot"] = rng.randrange(len(EXC_NAMES))
+        rec["exc_rot"] = rng.randrange(len(EXC_WEIGHTED))
         return rec
     rec["kind"] = "seq"
     ops = []
@@ -675,7 +678,7 @@ class _Run:
         res.count("sweep_points_total", total)
         res.count("sweep_points_executed", len(points))
         for j, (s, i) in enumerate(points):
-            exc = EXC_NAMES[(j + rec["exc_rot"]) % len(EXC_NAMES)]
+            exc = EXC_WEIGHTED[(j + rec["exc_rot"]) % len(EXC_WEIGHTED)]
             self.call(f"sweep:{j}", method, doc, {"site": list(s), "abs": i, "exc": exc})
             if res.violation:
                 res.violation["at"] = {"site": list(s), "abs": i, "exc": exc}
